@@ -16,13 +16,13 @@ import (
 
 // oracle ownership: which oracle names count as violations of which property.
 var e1Owners = map[string][]string{
-	"C01": {"delivery", "flush", "completeness"},
+	"C01": {"delivery", "flush", "completeness", "fault-send-ok"},
 	"C02": {"crosstalk", "foreign-error", "isolation", "handler-twice"},
 	"C04": {"cancel-hang", "cancel-error", "cancel-later-op", "cancel-peer", "probe"},
-	"C05": {"fault-hang", "fault-closed", "fault-delivery", "panic", "fault-newstream"},
+	"C05": {"fault-hang", "fault-closed", "fault-delivery", "panic", "fault-newstream", "fault-send-ok"},
 	"C06": {"probe", "stuck-connection"},
 	"C07": {"wire", "concurrent-io", "wire-trailing"},
-	"C10": {"handler-error", "spurious-error", "error-probe", "error-order"},
+	"C10": {"handler-error", "spurious-error", "probe", "client-stuck"},
 	"C11": {"metadata", "metadata-wire"},
 	"C12": {"close-hang", "close-count", "close-leak", "close-later-op", "close-ctx", "serve-order", "panic", "fault-hang"},
 	"C13": {"panic", "byz-memory", "byz-hang"},
@@ -472,6 +472,14 @@ func (x *e1) checkHangs(phase string) {
 				x.cancelMode(), x.whereRole("cli.manageStreams"), describeSet(cli), connClosed(x.conn), stalledNow),
 				fmt.Sprintf("phase=%s rpc%d census=%v lib=%v", phase, r.Spec.Idx, cli, x.libCensus()))
 		}
+	}
+	// closing releases parked transport I/O even when the peer never reads, so after a
+	// close nothing may stay inside a call, stalled or not
+	_, connClose := x.did["conn-close"]
+	_, trClose := x.did["tr-close"]
+	if stalledNow && (connClose || trClose) {
+		x.viol("close-hang", fmt.Sprintf("blocked-forever after close calls=[%s]", describeSet(calls)),
+			fmt.Sprintf("phase=%s (stalled) census=%v lib=%v", phase, calls, x.libCensus()))
 	}
 	if stalledNow {
 		return
